@@ -277,7 +277,7 @@ pub fn spec() -> PropSpec {
         ],
         checks: vec![
             EnumCheck::new("small-windows-1-to-64", true, |ctx| {
-                let per = if ctx.tier == Tier::Thorough { 300 } else { 30 };
+                let per = if ctx.tier == Tier::Thorough { 1500 } else { 150 };
                 let mut v = Vec::new();
                 for w in 1..=64u32 {
                     let s = case_for_w(Just(w).boxed());
@@ -288,7 +288,7 @@ pub fn spec() -> PropSpec {
             PropCheck::new("window-pool", |ctx| {
                 let pool: &'static [u32] = if ctx.tier == Tier::Thorough { &[100, 127, 128, 129, 255, 256, 4096, 65_535, 65_536, 1_000_000, 16_777_216] } else { &[100, 127, 128, 129, 255, 256, 4096, 65_535, 65_536, 1_000_000] };
                 case_for_w(prop_oneof![3 => gen::pick(pool), 1 => 1u32..100_000].boxed())
-            }, 6_000, 150_000, eval),
+            }, 30_000, 600_000, eval),
         ],
     }
 }
